@@ -111,7 +111,13 @@ func HarnessRequestShapes() {
 	f := follow[symChoice(len(follow))]
 	before := len(e.o.seen)
 	e.o.script = append(append([]originResp(nil), make([]originResp, before)...), originResp{status: st, header: h1, body: b1}, f)
-	c := e.plain(newReq(method, "o.test", "/r", "", rh))
+	var c capture
+	if full && symChoice(2) == 1 {
+		c = e.tunnelOne(newReq(method, "o.test", "/r", "", rh)) // the same exchange inside a CONNECT tunnel
+		vReach("via-tunnel")
+	} else {
+		c = e.plain(newReq(method, "o.test", "/r", "", rh))
+	}
 	vReach("answered")
 	vAssert(c.answered, "c16.request-unanswered")
 	vAssert(c.status >= 100 && c.status <= 599, "c16.malformed-status")
